@@ -71,6 +71,22 @@ theorem no_error_within_advertised_full_false : ¬ no_error_within_advertised_fu
     (.connData 15728640) (by simp)
   revert this; decide
 
+/-- The repair (fixes/C12-enforce-advertised.diff) is sound in the model: ONCE the generated shape fact says that
+    newUClientConnection recomputes its Config from the advertised parameters before preSetup, every spec
+    that lists a max_idle_timeout is covered for every user Config — the full statement then holds for it.
+    (On the unchanged tree the hypothesis is false and the witnesses of §7 hold instead.) -/
+theorem spec_client_covered_after_repair (h : Limits.specConfigCoversAdvertised = true)
+    (ps : ParamList) (user : Config) (hidle : 0 < (populate ps).maxIdleTimeout) : SpecCovered ps user := by
+  unfold SpecCovered specAdvertised specEnforced specConfig
+  rw [h, if_pos rfl]
+  exact cover_config_covers _ _ hidle
+
+/-- the repair function itself covers, whatever the shape fact says -/
+theorem cover_config_no_error (c : Config) (p : OwnParams) (hidle : 0 < p.maxIdleTimeout)
+    (evs : List PeerEvent) (hw : ∀ ev ∈ evs, ev.within (advertised p)) :
+    ∀ ev ∈ evs, ev.fires (enforced (coverConfig c p) p.activeConnectionIDLimit) = false :=
+  no_error_within_advertised_partial _ _ (cover_config_covers c p hidle) evs hw
+
 /-! ## 3. the plain client is consistent -/
 
 /-- the plain client advertises what it enforces: both come from the same populated Config -/
@@ -152,6 +168,16 @@ def record_equals_bytes_full : Prop :=
 theorem record_equals_bytes (ps : List (Nat × Nat)) (hwf : WellFormed ps) :
     recordOfBytesWith Limits.populateRecognises (marshal ps) = some (populate (toInts ps)) :=
   record_of_marshal Limits.populateRecognises ps hwf
+
+/-- … and it is the FULL reading of the bytes for every list that only uses recognised parameter ids -/
+theorem record_equals_bytes_when_recognised (ps : List (Nat × Nat)) (hwf : WellFormed ps)
+    (hrec : ∀ iv ∈ toInts ps, Limits.populateRecognises.contains iv.1 = true) :
+    recordOfBytes (marshal ps) = some (populate (toInts ps)) := by
+  simp only [recordOfBytes, parse_marshal ps hwf, Option.map_some, populate]
+  rw [populateWith_eq_recordAll _ _ hrec]
+
+/-- the Firefox parrots only list recognised ids (the Chrome parrots also list max_udp_payload_size) -/
+example : ∀ iv ∈ Limits.specParams_QUICFirefox_116A, Limits.populateRecognises.contains iv.1 = true := by decide
 
 /-- the bytes themselves lose nothing: they parse back to exactly the listed (id, value) pairs -/
 theorem bytes_parse_back (ps : List (Nat × Nat)) (hwf : WellFormed ps) :
